@@ -89,7 +89,7 @@ def unit_ext_confusion(normalize):
             ok = yt is not None and yp is not None and hasattr(yt, "filter_of") and hasattr(yp, "filter_of")
             goals.append(("confusion_matrix_gets_masked_columns", z3.BoolVal(ok)))
             if ok:
-                (mt, post, lent), (mp, posp, lenp) = yt.filter_of, yp.filter_of
+                (mt, post, lent, _i1), (mp, posp, lenp, _i2) = yt.filter_of, yp.filter_of
                 i = z3.Int("i")
                 yenc = arr_of(end.env.get("y"), end)
                 goals.append(("true_labels_are_column_0", to_int(getattr(yt, "column", -7)) == 0 if hasattr(yt, "column") else z3.BoolVal(False)))
